@@ -373,7 +373,7 @@ func main() {
 			defer d.Close()
 		}
 	}
-	g := &gen{r: lib.NewRand(fl.Seed*0x9e3779b97f4a7c15 + 17), kr: kr}
+	g := &gen{r: lib.NewRand(fl.Seed ^ 0xc17c17c17).Fork(), kr: kr}
 	mult := 1
 	if fl.Tier == "thorough" {
 		mult = 8
